@@ -2,13 +2,15 @@ module verifharness
 
 go 1.21.0
 
-require github.com/bluenviron/gomavlib/v3 v3.0.0
+require (
+	github.com/bluenviron/gomavlib/v3 v3.0.0
+	go.bug.st/serial v1.6.3
+)
 
 require (
 	github.com/creack/goselect v0.1.2 // indirect
 	github.com/pion/logging v0.2.2 // indirect
 	github.com/pion/transport/v2 v2.2.10 // indirect
-	go.bug.st/serial v1.6.3 // indirect
 	golang.org/x/net v0.33.0 // indirect
 	golang.org/x/sys v0.28.0 // indirect
 )
